@@ -165,7 +165,7 @@ def nt_c15(lhs, impl):
 
 PROPS["C15"] = {
     "modules": ["WhatIs.Props.C15"],
-    "theorems": ["WhatIs.C15.names_safe", "WhatIs.C15.attrTypeName_safe", "WhatIs.C15.dn_readback", "WhatIs.C15.no_forge",
+    "theorems": ["WhatIs.C15.names_safe", "WhatIs.C15.attrTypeName_safe", "WhatIs.C15.dn_structure_readback", "WhatIs.C15.dn_readback", "WhatIs.C15.no_forge",
                  "WhatIs.C15.table_names_injective_partial", "WhatIs.C15.table_names_injective"],
     "facts": {"x500.nameCount": 97},
     "nontrivial": nt_c15,
@@ -392,8 +392,7 @@ PROPS["C04"] = {
                  "WhatIs.C04.jwt_order_independent", "WhatIs.C04.jwt_no_map_range"],
     "facts": {"keyusage.isMap": False, "jwt.rangesOverMap": False,
               "scan.mapRanges": ["internal/file pgpKey: e.Identities [function sorts]"],
-              "scan.formatsNonUTC": ["internal/asn1struct Raw.Value: Format t", "internal/file getCertificateInfo: Format c.NotAfter",
-                                     "internal/file getCertificateInfo: Format c.NotBefore"],
+              "scan.formatsNonUTC": ["internal/asn1struct Raw.Value: Format t"],
               "scan.envReads": ["internal/openpgp/packet Config.Now: time.Now"]},
     "nontrivial": nt_c04,
     "rule": "inputs whose displayed collections have >= 2 elements (certificates with several key usages/SANs from the fixtures, a "
